@@ -219,6 +219,48 @@ static void record_subsets(vh::Trace& tr, const Variant& v, int views, const std
   }
 }
 
+// ---------------------------------------------------------------------------------------------------
+// every configuration is driven in a child process: if the code under test dies (signal, abort) the
+// parent turns that into an observation instead of dying with it.  The child writes to scratch
+// files whose complete lines the parent copies into the trace(s).
+// ---------------------------------------------------------------------------------------------------
+static std::string g_tmp;   // scratch file prefix (set in main)
+static void reemit(vh::Trace& tr, const std::string& path) {
+  std::ifstream in(path);
+  std::string line;
+  while (std::getline(in, line))
+    if (line.size() > 7 && line.back() == '}' && line.compare(0, 5, "{\"e\":") == 0)
+      tr.emit(vh::Json().raw("e", line.substr(5, line.size() - 6)));   // {"e":<rest>} verbatim
+}
+// returns 0 if the child finished, otherwise the signal number (or -1 for another abnormal end)
+static int forked(vh::Trace& tr, vh::Trace* trs, const std::function<void(vh::Trace&, vh::Trace&)>& body) {
+  tr.flush();
+  if (trs) trs->flush();
+  const std::string fa = g_tmp + ".childA", fb = g_tmp + ".childB";
+  const pid_t pid = fork();
+  if (pid < 0) { perror("fork"); _exit(3); }
+  if (pid == 0) {
+    {
+      vh::Trace b(fb);
+      vh::Trace a(fa);      // constructed last: the one vh::on_terminate writes its Abort line to
+      body(a, b);
+      a.flush(); b.flush();
+    }
+    _exit(0);
+  }
+  int status = 0;
+  waitpid(pid, &status, 0);
+  vh::Trace::current() = &tr;
+  reemit(tr, fa);
+  if (trs) reemit(*trs, fb);
+  unlink(fa.c_str()); unlink(fb.c_str());
+  if (WIFEXITED(status) && WEXITSTATUS(status) == 0) return 0;
+  return WIFSIGNALED(status) ? WTERMSIG(status) : -1;
+}
+static void emit_died(vh::Trace& tr, const char* what, const Variant& v, int views, int sig) {
+  tr.emit(vh::Json("Died").str("what", what).str("kind", v.kind).num("views", views).num("sig", sig));
+}
+
 static std::vector<Variant> switch_variants() {
   std::vector<Variant> vs;
   for (int k = 0; k < 6; ++k) {
@@ -252,14 +294,21 @@ static void mode_subsets(vh::Trace& tr, int stage, vh::Rng& rng) {
   }
   const std::vector<Variant> sv = switch_variants(), ev = extra_variants();
   for (int views : viewsList) {
-    for (auto& v : sv) record_subsets(tr, v, views, { 0, 1, 2 }, {}, rng);
+    for (auto& v : sv) {
+      vh::Rng r2(rng.next());
+      const int sig = forked(tr, nullptr, [&](vh::Trace& a, vh::Trace&) { record_subsets(a, v, views, { 0, 1, 2 }, {}, r2); });
+      if (sig) emit_died(tr, "subsets", v, views, sig);
+    }
     // the other ways of arriving at a class: all numbers of subsets for small/selected view numbers, sampled otherwise
     const bool all = views <= 12 || views == 24 || views == 36 || (stage >= 1 && views % 16 == 0);
     for (auto& v : ev) {
       if (v.kind == "blocks" && views < 4) continue;
       std::vector<int> Ns;
       if (!all) { Ns = { 1, 2, views, rng.range(1, views), rng.range(1, views) }; }
-      record_subsets(tr, v, views, { rng.range(0, 2) }, Ns, rng);
+      const int ms = rng.range(0, 2);
+      vh::Rng r2(rng.next());
+      const int sig = forked(tr, nullptr, [&](vh::Trace& a, vh::Trace&) { record_subsets(a, v, views, { ms }, Ns, r2); });
+      if (sig) emit_died(tr, "subsets", v, views, sig);
     }
   }
 }
@@ -384,7 +433,8 @@ static void mode_proj(vh::Trace& tr, int stage, vh::Rng& rng) {
       if (views <= 8) { for (int N = 1; N <= views + 1; ++N) Ns.push_back(N); }
       else { Ns = { 1, 2, 3, 4, views / 2, views, rng.range(5, views) }; std::sort(Ns.begin(), Ns.end()); Ns.erase(std::unique(Ns.begin(), Ns.end()), Ns.end()); }
       const int rings = (v.tofMash > 0 || views > 12) ? 2 : 3;
-      record_proj(tr, v, views, rings, Ns, true);
+      const int sig = forked(tr, nullptr, [&](vh::Trace& a, vh::Trace&) { record_proj(a, v, views, rings, Ns, true); });
+      if (sig) emit_died(tr, "proj", v, views, sig);
     }
 }
 
@@ -459,6 +509,17 @@ static void record_recon(vh::Trace& tr, vh::Trace& trs, const Variant& v, int vi
                .num("views", views).str("kind", v.kind).str("msg", err ? msg : ""));
 }
 
+static void recon_forked(vh::Trace& tr, vh::Trace& trs, const Variant& v, int views, int N, const std::string& algo, bool randomise,
+                         int startSubset, int startSubiter, int iters) {
+  const int sig = forked(tr, &trs, [&](vh::Trace& a, vh::Trace& b) { record_recon(a, b, v, views, N, algo, randomise, startSubset, startSubiter, iters); });
+  if (sig)
+    trs.emit(vh::Json("SchedRun").str("algo", algo + "+PLL").num("N", N).num("maxSubsets", 0).num("used", -1).num("objN", -1)
+                 .num("startSubset", startSubset).num("startSubiter", startSubiter).num("numSubiters", N * iters)
+                 .boolean("randomise", randomise).num("reuseN", 0).boolean("setupOk", false).boolean("err", false)
+                 .boolean("abort", true).num("sig", sig).arr("subiters", std::vector<int>()).arr("subsets", std::vector<int>())
+                 .arr("nsub", std::vector<int>()).arr("first", std::vector<int>()).num("views", views).str("kind", v.kind).str("msg", "child process died"));
+}
+
 static void mode_recon(vh::Trace& tr, vh::Trace& trs, int stage, vh::Rng& rng) {
   std::vector<Variant> vars = switch_variants();
   { Variant v; v.kind = "cyl"; v.r90 = v.r180 = v.rseg = true; v.tofMash = 1; vars.push_back(v); }
@@ -469,14 +530,14 @@ static void mode_recon(vh::Trace& tr, vh::Trace& trs, int stage, vh::Rng& rng) {
         for (int randomise = 0; randomise < 2; ++randomise) {
           const int startSubset = rng.range(0, N - 1), startSubiter = rng.coin() ? 1 : rng.range(1, N);
           // OSSPS works with any number of subsets; OSMAPOSL refuses unbalanced subsets (the library's own verdict is used as the gate)
-          record_recon(tr, trs, v, views, N, "OSSPS", randomise != 0, startSubset, startSubiter, 2);
+          recon_forked(tr, trs, v, views, N, "OSSPS", randomise != 0, startSubset, startSubiter, 2);
           Built b; std::string m;
           if (!build(b, v, views, &m, 2, 3)) continue;
           shared_ptr<ExamInfo> ei(new ExamInfo);
           shared_ptr<ProjData> pd(new ProjDataInMemory(ei, b.pdi));
           PLL probe; probe.set_proj_data_sptr(pd); probe.set_projector_pair_sptr(b.pair); probe.set_max_segment_num_to_process(b.pdi->get_max_segment_num()); probe.set_num_subsets(N);
           if (probe.subsets_are_approximately_balanced())
-            record_recon(tr, trs, v, views, N, "OSMAPOSL", randomise != 0, startSubset, startSubiter, 2);
+            recon_forked(tr, trs, v, views, N, "OSMAPOSL", randomise != 0, startSubset, startSubiter, 2);
         }
       }
 }
@@ -624,6 +685,7 @@ int main(int argc, char** argv) {
   if (!freopen("/dev/null", "w", stdout)) return 3;
   const std::string mode = argv[1];
   vh::Trace tr(argv[2]);
+  g_tmp = argv[2];
   vh::Rng rng(vh::seed_from_env());
   if (mode == "subsets") {
     mode_subsets(tr, atoi(argv[3]), rng);
